@@ -160,13 +160,24 @@ UNSIGNED = ('u8', 'u16', 'u32', 'u64', 'bool')
 _form_narrow = st.sampled_from(['i8', 'i8', 'i16', 'i16', 'u8', 'u8', 'u16', 'u32', 'u64', 'i32w', 'i64w', 'be16', 'be32', 'be64', 'bool'])
 # forms that fit the small (|index| <= 12, signed) pools of the histories: values are small there, the dtype is what varies
 _form_narrow_small = st.sampled_from(['i8', 'i8', 'i16', 'u8', 'u8', 'u16', 'u32', 'u64', 'be16', 'be32', 'be64', 'i64w'])
+# Floating dtypes of an index array other than native float64 (cross-pollination class C): the whole-number indices are exactly
+# representable in the dtype (float16: |index| <= 2048); form -> (numpy dtype string, lowest, highest index generated).  A
+# conversion that does its arithmetic in the storage dtype ((2u-v)/3 in float32, 2U+V beyond 2048 in float16) loses digits.
+FDTYPES = {'f32': ('float32', -BIG, BIG), 'f16': ('float16', -2048, 2048), 'f64be': ('>f8', -BIG, BIG), 'f32be': ('>f4', -BIG, BIG)}
+_form_float = st.sampled_from(['f32', 'f32', 'f16', 'f16', 'f64be', 'f32be'])
 _i0_19 = st.integers(0, 19)
 
 
 @st.composite
 def _forms(draw, narrow=_form_narrow):
-    """70 % the general forms, 30 % a narrow / unsigned / big-endian / bool integer array"""
-    return draw(narrow) if draw(_i0_19) < 6 else draw(_form_general)
+    """70 % the general forms, 30 % a narrow / unsigned / big-endian / bool integer array; the general form 'float' (integer-valued
+    float64 array) is in 6 of 10 cases refined to a float32 / float16 / big-endian floating array of whole numbers"""
+    if draw(_i0_19) < 6:
+        return draw(narrow)
+    f = draw(_form_general)
+    if f == 'float' and draw(_i0_9) < 6:
+        return draw(_form_float)
+    return f
 
 
 _form = _forms()
@@ -183,7 +194,7 @@ def _wide_elem(lo, hi):
 
 
 _wide_triple = {f: st.tuples(_wide_elem(lo, hi), _wide_elem(lo, hi), _wide_elem(lo, hi)).map(lambda t: _nz(t))
-                for f, (dt, lo, hi) in DTYPES.items()}
+                for f, (dt, lo, hi) in list(DTYPES.items()) + list(FDTYPES.items())}
 
 
 def fit4(t, lo, hi):
@@ -233,7 +244,7 @@ _n34 = st.sampled_from([3, 3, 4])
 
 _gmul = st.integers(0, 10 ** 6)
 _i0_11 = st.integers(0, 11)
-_wide_block = {f: index_block(_wide_triple[f]) for f in DTYPES}
+_wide_block = {f: index_block(_wide_triple[f]) for f in list(DTYPES) + list(FDTYPES)}
 _min_elem = {f: st.sampled_from([lo, lo, 0, lo // 2, -(lo // 2)]) for f, (dt, lo, hi) in DTYPES.items() if lo < 0}
 
 
@@ -305,7 +316,15 @@ def random_cases(draw):
             case['mult'] = 1
             case['four'] = four
         return case
-    case.update(draw(index_block()))
+    wide = None
+    if form in FDTYPES:
+        # float32 / float16 / big-endian floating array of whole numbers (a refinement of the form 'float'): small indices or
+        # (half) the whole exactly representable range
+        if op == 'reduce':
+            form = case['form'] = 'int'         # reduce_indices documents 'an array of ints'
+        elif draw(_bool):
+            wide = FDTYPES[form]
+    case.update(draw(_wide_block[form]) if wide else draw(index_block()))
     if op == 'normal':
         case['cell'] = draw(_cells16h)
         case['via'] = draw(_via)
@@ -326,6 +345,8 @@ def random_cases(draw):
         case['four'] = draw(_bool)
         if case['form'] == 'float':
             case['form'] = 'int'
+    if wide and (op == 'conv34' or case.get('four')):
+        case['idx'] = _map_block(case['idx'], lambda t: _nz(fit4(t, wide[1], wide[2])))
     return case
 
 
@@ -351,7 +372,7 @@ _i0_31 = st.integers(0, 31)
 _i0_99 = st.integers(0, 99)
 _origin = st.one_of(st.none(), st.lists(gens.nice(-5.0, 5.0, 2), min_size=3, max_size=3), st.lists(st.integers(-4, 4), min_size=3, max_size=3))
 _origin3 = st.lists(st.one_of(gens.nice(-5.0, 5.0, 2), st.integers(-4, 4).map(float)), min_size=3, max_size=3)
-_vform = st.sampled_from(['arr', 'arr', 'list', 'tuple', 'fortran', 'nc', 'ro', 'int'])
+_vform = st.sampled_from(['arr', 'arr', 'list', 'tuple', 'fortran', 'nc', 'ro', 'int', 'f32'])
 _qwhat = st.sampled_from(['normal', 'normal', 'normal', 'normal', 'vector', 'vector', 'family', 'read'])
 _qfour = st.sampled_from([0, 0, 0, 1, 2, 2])          # 4-index form: never / always / exactly when the cell is hexagonal now
 _modkind = st.sampled_from(['mod'] * 7 + ['default', 'new', 'copy'])
@@ -440,7 +461,7 @@ _seqlen = st.sampled_from([2, 3, 3, 4, 5])
 def _variant_form(draw, base_form):
     """the form of a repeat of the same index block: a block drawn for a narrow dtype (values from that dtype's range) is
     repeated in that dtype or in a general form (int64 based: holds every value); a general block in any general form"""
-    if base_form in DTYPES and draw(_bool):
+    if (base_form in DTYPES or base_form in FDTYPES) and draw(_bool):
         return base_form
     return draw(_form_general)
 
@@ -534,7 +555,46 @@ def family_cases(draw):
                     ang = t
                     break
             p = l3 + (ang or [81.0, 104.0, 97.0])
-    return {'ctor': fam, 'params': p, 'rot': draw(_rot_or_none), 'via': draw(_via_f)}
+    case = {'ctor': fam, 'params': p, 'rot': draw(_rot_or_none), 'via': draw(_via_f)}
+    if draw(_i0_9) < 3:
+        # class C: the lattice parameters as whole numbers handed over as Python ints or numpy scalars of a narrow integer /
+        # floating dtype, lengths up to the dtype's limit (so that b**2, b*c leave an 8/16-bit integer)
+        pt = draw(_ptype)
+        case['params'] = _whole_params(draw, fam, PTYPES[pt])
+        case['ptype'] = pt
+    return case
+
+
+# parameter type -> largest whole number used for a length
+PTYPES = {'pyint': 400, 'int8': 127, 'uint8': 255, 'int16': 400, 'uint16': 400, 'int32': 400, 'int64': 400, 'f32': 400, 'f16': 400, 'f64': 400}
+_ptype = st.sampled_from(['pyint', 'pyint', 'int8', 'int8', 'uint8', 'uint8', 'int16', 'uint16', 'int32', 'int64', 'f32', 'f32', 'f16', 'f64'])
+_u01 = st.integers(0, 1000)
+_wtrig = st.sampled_from([35, 47, 60, 71, 85, 95, 101, 108, 115])
+_wbeta = st.sampled_from([95, 98, 104, 113, 120, 127])
+_wtri = st.sampled_from([[81, 104, 97], [70, 80, 100], [55, 66, 77], [117, 66, 100], [62, 99, 84], [100, 110, 120], [83, 57, 124]])
+
+
+def _whole_params(draw, fam, lim):
+    """whole-number constructor parameters with non-coincident values, the longest length up to lim"""
+    a = 2 + draw(_u01) % max(1, int(lim / 2.4) - 2)
+    if draw(_bool):
+        a = max(2, int(lim / 2.4) - draw(_u01) % 4)        # at the limit: c = round(2.4 a) reaches lim
+    b = max(a + 1, int(round(a * (1.15 + (draw(_u01) % 45) / 100.0))))
+    c = min(lim, max(b + 1, int(round(a * (1.75 + (draw(_u01) % 65) / 100.0)))))
+    if fam == 'cubic':
+        return [min(lim, c)]
+    if fam in ('tetragonal', 'hexagonal'):
+        return [a, c] if draw(_bool) else [c, a]
+    if fam == 'trigonal':
+        return [c, draw(_wtrig)]
+    pm = draw(_perm)
+    l3 = [a, b, c]
+    l3 = [l3[pm[0]], l3[pm[1]], l3[pm[2]]]
+    if fam == 'orthorhombic':
+        return l3
+    if fam == 'monoclinic':
+        return l3 + [draw(_wbeta)]
+    return l3 + list(draw(_wtri))
 
 
 # ----------------------------------------------------------------------------- index strings
@@ -616,3 +676,355 @@ def fuzz_cases(draw):
             pos = min(pos, len(s) - 1)
             s = s[:pos] + s[pos] + s[pos:]
     return {'text': s}
+
+
+# ============================================================================= cross-pollination round (classes A-H)
+#
+# Extended cells ("cellx"): a family cell {'family', 'abc', 'rot'} optionally carrying
+#   'sym': {'rp': row permutation, 'rs': row signs, 'cp': column permutation, 'cs': column signs}   (class G)
+#       V -> exact signed permutation of the lattice vectors (rows: a relabelling / inversion of a, b, c) and of the
+#       Cartesian axes (columns), overall determinant kept positive: cells with exact zeros in unusual places, upper
+#       triangular cells, negative diagonal entries; nothing is rounded (entries are moved and negated only);
+#   'tilt': [dxy, dxz, dyz, dyx, dzx, dzy]                                                           (class E)
+#       added to the unrotated family matrix as fractions (1e-12 ... 1e-3, signed) of its largest entry: almost-zero tilts,
+#       almost-right angles, almost-equal lengths, entries inside and outside Box's documented 1e-9 clean-up window.
+# The matrix is built by c16._cellV.
+
+_SPERMS = list(itertools.permutations(range(3)))
+_sperm = st.sampled_from(_SPERMS)
+_ssign = st.sampled_from([[1, 1, 1], [1, 1, -1], [1, -1, 1], [-1, 1, 1], [-1, -1, 1], [-1, 1, -1], [1, -1, -1], [-1, -1, -1]])
+_id3 = [0, 1, 2]
+_pos3 = [1, 1, 1]
+
+
+def perm_parity(p):
+    p = list(p)
+    return 1 if p in ([0, 1, 2], [1, 2, 0], [2, 0, 1]) else -1
+
+
+def fix_sym(rp, rs, cp, cs):
+    """make the overall determinant of the row / column operations +1 by flipping the last column sign if needed"""
+    det = perm_parity(rp) * perm_parity(cp) * rs[0] * rs[1] * rs[2] * cs[0] * cs[1] * cs[2]
+    cs = list(cs)
+    if det < 0:
+        cs[2] = -cs[2]
+    return {'rp': list(rp), 'rs': list(rs), 'cp': list(cp), 'cs': cs}
+
+
+@st.composite
+def syms(draw):
+    """half: Cartesian axes only (lattice parameters, family unchanged), half: lattice vectors relabelled / inverted as well"""
+    k = draw(_i0_9)
+    cp, cs = draw(_sperm), draw(_ssign)
+    if k < 4:
+        return fix_sym(_id3, _pos3, cp, cs)
+    if k == 4:
+        return fix_sym(_id3, _pos3, _id3, cs)                       # lower triangular, negative diagonal entries
+    if k == 5:
+        return fix_sym([2, 1, 0], draw(_ssign), [2, 1, 0], cs)      # lattice vectors and axes both reversed: upper triangular
+    if k < 8:
+        return fix_sym(draw(_sperm), draw(_ssign), _id3, _pos3)
+    return fix_sym(draw(_sperm), draw(_ssign), cp, cs)
+
+
+_syms = syms()
+_dexp = st.integers(-12, -3)
+_dman = st.sampled_from([1.0, 1.0, 1.3, 2.0, 2.9, -1.0, -1.7, -2.5])
+
+
+@st.composite
+def deltas(draw):
+    """signed relative offset m x 10^k, k = -12 ... -3"""
+    return draw(_dman) * 10.0 ** draw(_dexp)
+
+
+_delta = deltas()
+_delta0 = st.one_of(st.just(0.0), _delta)
+
+
+@st.composite
+def cellsx(draw, kind=None):
+    """family cell; 30 % with an exact signed permutation (no rotation), 20 % with tiny tilts, else as cells16"""
+    c = draw(_cells16h)
+    k = draw(_i0_9) if kind is None else {'sym': 0, 'tilt': 3, 'plain': 9}[kind]
+    if k < 3:
+        c = dict(c, rot=None, sym=draw(_syms))
+    elif k < 5:
+        t = [draw(_delta0) for _ in range(6)]
+        if not any(t):
+            t[0] = 1e-7
+        c = dict(c, rot=None, tilt=t)
+        if draw(_bool):
+            c['sym'] = draw(_syms)
+    return c
+
+
+_cellsx = cellsx()
+_cells_sym = cellsx('sym')
+_cells_tilt = cellsx('tilt')
+
+
+# ----------------------------------------------------------------------------- ledger (classes A, B)
+# {'ops': [[kind, sub-case], ...], 'post': [[what, i], ...]}: the sub-cases are complete cases of the clauses random / strings
+# (judged by those oracles); every array handed in and out is kept and compared bit for bit after each later call; 'post' =
+# what the caller does afterwards: 0 overwrite the arrays handed IN to call i, 1 overwrite the array handed OUT by call i,
+# 2 make call i again with fresh arguments, 3 make call i again on the same Box object.
+
+_lops = st.sampled_from(['normal', 'normal', 'vector', 'vector', 'conv34', 'centering', 'centering', 'reduce', 'strings'])
+_lform = st.sampled_from(['int', 'int', 'int', 'float', 'i32', 'nc', 'fortran', 'i8', 'i16', 'u8', 'f32', 'be32', 'list'])
+_post = st.tuples(st.sampled_from([0, 0, 1, 1, 2, 3]), st.integers(0, 7)).map(list)
+
+
+@st.composite
+def ledger_cases(draw):
+    n = draw(st.sampled_from([2, 3, 3, 4]))
+    ops = []
+    shared_cell = draw(_cellsx)
+    shared_hex = draw(_fam_hex)
+    for _ in range(n):
+        op = draw(_lops)
+        if op == 'strings':
+            ops.append(['strings', draw(_string_cases)])
+            continue
+        form = draw(_lform)
+        sub = {'op': op, 'form': form}
+        sub.update(draw(index_block(small_triple if form in ('i8', 'u8', 'i16') else triple)))
+        if form == 'u8':
+            sub['idx'] = _map_block(sub['idx'], lambda t: _nz([abs(x) for x in t]))
+        if op in ('normal', 'vector'):
+            k = draw(_i0_9)
+            sub['cell'] = shared_cell if k < 5 else ({'family': 'hexagonal', 'abc': shared_hex['abc'], 'rot': None} if k < 7 else draw(_cellsx))
+            sub['via'] = draw(_via)
+            sub['four'] = form != 'u8' and (draw(_bool) if sub['cell']['family'] == 'hexagonal' and 'sym' not in sub['cell'] and 'tilt' not in sub['cell'] else False)
+            if op == 'normal':
+                sub['uvw'] = draw(_uvws)
+            else:
+                sub['den'] = draw(_den) if form in ('int', 'list') else 1
+        elif op == 'conv34':
+            sub['bad'] = 0
+            if form == 'u8':
+                sub['form'] = 'i8'
+        elif op == 'centering':
+            sub['setting'] = draw(_setting_t)
+            sub['den'] = draw(_den) if form in ('int', 'list') else 1
+        else:
+            sub['mult'] = 1 if form in DTYPES else draw(_mult)
+            sub['four'] = form != 'u8' and draw(_bool)
+            if form in ('float', 'f32'):
+                sub['form'] = 'int'
+        ops.append(['random', sub])
+    return {'ops': ops, 'post': draw(st.lists(_post, min_size=2, max_size=5))}
+
+
+# ----------------------------------------------------------------------------- working-unit configurations (class D)
+# cfg = {'kind': 'named', 'units': {...}} | {'kind': 'seed', 'seed': n} | {'kind': 'SI'}; a plan = {'pre': cfg | None, 'W': cfg,
+# 'back': bool}: the judged calls run under pre (when given), then under W, then (back) under the restored default units, in
+# one process; the cell is the same PHYSICAL cell (angstrom numbers x the size of the angstrom in the working units).
+
+ULEN = ['nm', 'pm', 'm', 'cm', 'aBohr', 'um', 'nm', 'm']
+_ulen = st.sampled_from(ULEN)
+_uextra = st.sampled_from([{}, {}, {'energy': 'J'}, {'mass': 'kg'}, {'time': 'ns', 'charge': 'C'}, {'energy': 'kcal', 'mass': 'g'}])
+_ukind = st.sampled_from(['named', 'named', 'named', 'seed', 'SI'])
+_useed = st.integers(0, 2 ** 31 - 1)
+DEFAULT_CFG = {'kind': 'named', 'units': {'length': 'angstrom', 'mass': 'amu', 'energy': 'eV', 'charge': 'e'}}
+
+
+@st.composite
+def unit_cfgs(draw):
+    kind, ln, ex, seed = draw(_ukind), draw(_ulen), draw(_uextra), draw(_useed)
+    if kind == 'named':
+        return {'kind': 'named', 'units': dict(ex, length=ln)}
+    if kind == 'seed':
+        return {'kind': 'seed', 'seed': seed}
+    return {'kind': 'SI'}
+
+
+_ucfg = unit_cfgs()
+_upre = st.sampled_from(['default', 'default', 'other', 'none'])
+_ukinds = st.sampled_from(['normal', 'normal', 'vector', 'vector', 'family', 'family', 'family'])
+
+
+def apply_units(uc, cfg):
+    if cfg['kind'] == 'named':
+        uc.reset_units(**cfg['units'])
+    elif cfg['kind'] == 'seed':
+        uc.reset_units(seed=int(cfg['seed']))
+    else:
+        uc.reset_units(seed='SI')
+
+
+def restore_units(uc):
+    uc.reset_units(length='angstrom', mass='amu', energy='eV', charge='e')
+
+
+@st.composite
+def units_cases(draw):
+    W, pk, P = draw(_ucfg), draw(_upre), draw(_ucfg)
+    if W == DEFAULT_CFG:
+        W = {'kind': 'SI'}
+    pre = DEFAULT_CFG if pk == 'default' else (None if pk == 'none' else (P if P != W else {'kind': 'named', 'units': {'length': 'nm'}}))
+    kind = draw(_ukinds)
+    case = {'plan': {'pre': pre, 'W': W, 'back': draw(_bool)}, 'kind': kind, 'via_model': draw(_bool)}
+    if kind == 'family':
+        sub = draw(_family_cases)
+        sub.pop('ptype', None)
+        if 'ptype' not in sub and any(isinstance(x, int) for x in sub['params']):
+            sub['params'] = [float(x) for x in sub['params']]
+        case['sub'] = sub
+        return case
+    sub = {'op': kind, 'form': draw(_lform)}
+    if sub['form'] in ('i8', 'u8', 'i16', 'be32'):
+        sub['form'] = 'int'
+    sub.update(draw(index_block()))
+    sub['cell'] = draw(_cellsx)
+    sub['via'] = draw(_via)
+    sub['four'] = draw(_bool) if sub['cell']['family'] == 'hexagonal' and 'sym' not in sub['cell'] and 'tilt' not in sub['cell'] else False
+    if kind == 'normal':
+        sub['uvw'] = draw(_uvws)
+    else:
+        sub['den'] = draw(_den) if sub['form'] in ('int', 'list') else 1
+    case['sub'] = sub
+    return case
+
+
+# ----------------------------------------------------------------------------- near-threshold values (class E)
+# kinds: 'family'  a family constructor with ONE relation off its higher-symmetry value by a relative delta (1e-12 ... 1e-3),
+#                  optional rtol / atol arguments: judged against my own reading of the documented definitions and tolerances,
+#                  outside a factor-3 band around each documented threshold; hexagonal bases also decide the 4-index acceptance;
+#        'tilt'    plane normals / vectors in a cell with tiny tilts (cellsx 'tilt');
+#        'almost_int'  plane indices off whole numbers by a relative delta: the documented refusal or the normal of the rounded plane;
+#        'guard'   a 4-index quadruple whose first three indices sum to delta instead of 0.
+
+NEAR_BASES = ['tetragonal', 'trigonal', 'orthorhombic', 'monoclinic', 'triclinic', 'hex_ab', 'hex_gamma']
+_nbase = st.sampled_from(NEAR_BASES + ['tetragonal', 'hex_ab', 'hex_gamma'])
+_nopts = st.sampled_from([None, None, None, None, {'rtol': 1e-3}, {'rtol': 1e-8}, {'rtol': 1e-8, 'atol': 0.0}, {'atol': 1e-3}, {'rtol': 1e-2, 'atol': 0.0}])
+_nkind = st.sampled_from(['family', 'family', 'family', 'tilt', 'tilt', 'almost_int', 'guard'])
+_nbuild = st.sampled_from(['ctor', 'ctor', 'vects', 'vects_rot'])
+_rot1 = gens.rotations(min_angle=1.0)
+
+
+@st.composite
+def near_cases(draw):
+    kind = draw(_nkind)
+    if kind == 'family':
+        base = draw(_nbase)
+        fp = draw(gens.family_params('triclinic' if base == 'triclinic' else ('monoclinic' if base == 'monoclinic' else 'orthorhombic')))
+        a, b, c, al, be, ga = fp['abc']
+        d = draw(_delta)
+        if base == 'monoclinic':
+            d = abs(d)                         # Box.monoclinic documents beta > 90
+        case = {'kind': 'family', 'base': base, 'abc': [a, b, c, al, be, ga], 'delta': d, 'build': draw(_nbuild), 'rot': draw(_rot1),
+                'opts': draw(_nopts), 'via': draw(_via_f), 'sel': draw(_i0_9)}
+        blk = draw(index_block(small_triple, st.sampled_from(['0', 'N'])))
+        case.update(blk)
+        case['uvw'] = draw(_uvws)
+        return case
+    if kind == 'tilt':
+        sub = {'op': draw(st.sampled_from(['normal', 'normal', 'vector'])), 'form': draw(st.sampled_from(['int', 'list', 'float', 'i8']))}
+        sub.update(draw(index_block()))
+        sub['cell'] = draw(_cells_tilt)
+        sub['via'] = draw(_via)
+        sub['four'] = False
+        sub['uvw'] = draw(_uvws)
+        sub['den'] = 1
+        return {'kind': 'tilt', 'sub': sub}
+    if kind == 'almost_int':
+        blk = draw(index_block())
+        flat = blk['idx'] if blk['shape'] != 'MN' else [t for r in blk['idx'] for t in r]
+        n = 1 if blk['shape'] == '0' else len(flat)
+        return {'kind': 'almost_int', 'shape': blk['shape'], 'idx': blk['idx'], 'cell': draw(_cellsx), 'via': draw(_via),
+                'eps': [[draw(_delta0) for _ in range(3)] for _ in range(n)]}
+    blk = draw(index_block())
+    return {'kind': 'guard', 'shape': blk['shape'], 'idx': blk['idx'], 'delta': draw(_delta), 'where': draw(_i0_9), 'den': draw(_den),
+            'hexcell': draw(_fam_hex)['abc']}
+
+
+# ----------------------------------------------------------------------------- many decades in one call (class F)
+# {'op': ..., 'rows': [[t, e], ...]}: row i of the array argument is the small integer triple t scaled by 2**e (vector, centring,
+# 3<->4: floating indices spanning 2**-40 ... 2**40, exact) or multiplied by the integer g (planes: g <= 1e4 with |g t| <= 1e5,
+# reduce: g up to 1e15); every row is judged relative to its OWN magnitude and against the call made with that row alone.
+
+_dop = st.sampled_from(['vector', 'vector', 'normal', 'normal', 'centering', 'conv34', 'reduce'])
+_e2 = st.integers(-40, 40)
+_g10 = st.integers(0, 15)
+_gm = st.sampled_from([1, 1, 2, 3, 7, 9])
+
+
+@st.composite
+def decades_cases(draw):
+    op = draw(_dop)
+    n = draw(st.integers(3, 6))
+    case = {'op': op, 'via': draw(_via), 'shape': draw(st.sampled_from(['N', 'N', 'MN']))}
+    if op in ('vector', 'normal'):
+        case['cell'] = draw(_cellsx)
+        hexok = case['cell']['family'] == 'hexagonal' and 'sym' not in case['cell'] and 'tilt' not in case['cell']
+        case['four'] = hexok and draw(_bool)
+    elif op in ('conv34', 'reduce'):
+        case['four'] = draw(_bool)
+    if op == 'centering':
+        case['setting'] = draw(_setting_t)
+    rows = []
+    lo_first = draw(_bool)
+    for i in range(n):
+        t = draw(small_triple)
+        if op in ('normal', 'reduce'):
+            kmax = 4 if op == 'normal' else 15
+            k = (0 if lo_first else kmax) if i == 0 else ((kmax if lo_first else 0) if i == 1 else draw(_g10) % (kmax + 1))
+            rows.append([t, draw(_gm) * 10 ** k])
+        else:
+            e = (-30 if lo_first else 30) if i == 0 else ((30 if lo_first else -30) if i == 1 else draw(_e2))
+            rows.append([t, e])
+    case['rows'] = rows
+    return case
+
+
+# ----------------------------------------------------------------------------- exactly structured inputs (class G)
+# one index block in a cell with an exact signed permutation of lattice vectors / Cartesian axes: plane normal + zone law, vector,
+# the mirrored block (-h,-k,-l), the cyclically relabelled case ((k,l,h) in the cell (b,c,a)), exact halves as vector indices,
+# family identification when only the Cartesian axes were permuted.
+
+@st.composite
+def structured_cases(draw):
+    blk = draw(index_block())
+    return {'shape': blk['shape'], 'idx': blk['idx'], 'cell': draw(_cells_sym), 'uvw': draw(_uvws), 'via': draw(_via),
+            'form': draw(st.sampled_from(['int', 'list', 'float', 'i8', 'nc', 'f32'])), 'den': draw(st.sampled_from([1, 2, 2, 4])),
+            'via_f': draw(_via_f), 'vform': draw(st.sampled_from(['arr', 'list', 'int', 'f32', 'fortran']))}
+
+
+# ----------------------------------------------------------------------------- enumerated option combinations (class H)
+
+CENTRING_CALLS = [(s, d) for s in SETTINGS for d in ('c2p', 'p2c')]
+FAM_FUNCS = ['identifyfamily', 'iscubic', 'ishexagonal', 'istetragonal', 'isrhombohedral', 'isorthorhombic', 'ismonoclinic', 'istriclinic']
+FAM_OPTS = [None, {'rtol': 1e-2}, {'rtol': 1e-9, 'atol': 0.0}]
+# boxes 1e-3 (relative) away from a higher-symmetry family: the loose option (rtol 1e-2) changes the documented answer
+FAM_BOXES = [['tetragonal', [3.1, 3.1 * 1.001]], ['orthorhombic', [2.9, 2.9 * 1.001, 6.7]], ['monoclinic', [3.3, 4.9, 7.1, 90.0 * 1.001]],
+             ['trigonal', [4.2, 90.0 * 1.001]], ['hex_ab', [2.95, 2.95 * 1.001, 4.68]]]
+
+
+def enum_options(tier):
+    cases = []
+    nc = len(CENTRING_CALLS)
+    for i in range(nc):
+        for j in range(nc):
+            for k in range(nc):
+                if tier == 'quick':
+                    # quick: all ordered pairs (k == i closes the pair by repeating the first call) and every triple of calls
+                    # that touch the same table (same setting, or the two trigonal settings)
+                    s = [CENTRING_CALLS[x][0] for x in (i, j, k)]
+                    shared = len({x[0] for x in s}) < 3
+                    if not (k == i or shared):
+                        continue
+                cases.append({'kind': 'centring', 'calls': [i, j, k]})
+    for m1 in (1, 2, 3):
+        for r1 in (False, True):
+            for m2 in (1, 2, 3):
+                for r2 in (False, True):
+                    cases.append({'kind': 'all_indices', 'calls': [[m1, r1], [m2, r2]]})
+    calls = [(f, o, v) for f in range(len(FAM_FUNCS)) for o in range(len(FAM_OPTS)) for v in ('method', 'function')]
+    for b in range(len(FAM_BOXES)):
+        for x in calls:
+            for y in calls:
+                if tier == 'quick' and x[2] != y[2] and (x[0] + y[0] + b) % 2:
+                    continue
+                cases.append({'kind': 'family', 'box': b, 'calls': [list(x), list(y)]})
+    return cases
